@@ -182,3 +182,10 @@ Proof.
 Qed.
 
 End HLL.
+
+(** Hypotheses satisfiable / conclusion not vacuous: two colliding items. *)
+Example cms_hypotheses_satisfiable :
+  let hc := fun x r : Z => x + r in
+  0 < 2 /\ true_count 1 [(1, 2); (3, 1)] = 2 /\
+  c_est hc 2 2 (c_sketch hc 2 2 [(1, 2); (3, 1)] cms_empty) 1 = 3.
+Proof. cbv zeta. repeat split; try lia; vm_compute; reflexivity. Qed.
